@@ -33,7 +33,17 @@ fn child(cmd: &str, outcomes: &str, dir: &str) -> ! {
         "vrps" => args.extend(["vrps".into(), "--noupdate".into(), "-o".into(), out]),
         "validate" => args.extend(["validate".into(), "--noupdate".into(), "-a".into(), "64500".into(), "-p".into(), "10.0.0.0/8".into(), "-o".into(), out]),
         "update" => args.extend(["update".into()]),
-        "server" => args.extend(["--disable-rsync".into(), "server".into(), "--refresh".into(), "1".into()]),
+        "server" => {
+            args.extend(["--disable-rsync".into(), "server".into(), "--refresh".into(), "1".into()]);
+            if let Ok(port) = std::env::var("C32_RTR_PORT") {
+                args.extend(["--rtr".into(), format!("127.0.0.1:{}", port)]);
+                let port: u16 = port.parse().unwrap();
+                // the validation thread is held after the first data set has been installed and before its
+                // notification goes out, until the client is synchronised
+                routinator::verif::arm("server.updated");
+                std::thread::spawn(move || rtr_observer(port));
+            }
+        }
         _ => panic!("cmd"),
     }
     let res: Result<(), ExitError> = (|| {
@@ -46,8 +56,66 @@ fn child(cmd: &str, outcomes: &str, dir: &str) -> ! {
         op.run(config)
     })();
     let code = match res { Ok(()) => 0, Err(ExitError::Generic) => 1, Err(ExitError::IncompleteUpdate) => 2, Err(ExitError::Invalid) => 3 };
-    println!("RESULT runs={} exit={}", routinator::verif::counter("validation.process.calls"), code);
+    if std::env::var("C32_RTR_PORT").is_ok() && SYNCED.load(std::sync::atomic::Ordering::SeqCst) > 0 {
+        // let the client read what is on its way: the first run's notification, then a grace period for further ones
+        let t0 = Instant::now();
+        while NOTIFS.load(std::sync::atomic::Ordering::SeqCst) == 0 && t0.elapsed() < Duration::from_secs(5) { std::thread::sleep(Duration::from_millis(10)); }
+        std::thread::sleep(Duration::from_millis(300));
+    }
+    println!("RESULT runs={} exit={} synced={} notifs={}", routinator::verif::counter("validation.process.calls"), code,
+             SYNCED.load(std::sync::atomic::Ordering::SeqCst), NOTIFS.load(std::sync::atomic::Ordering::SeqCst));
     std::process::exit(0);
+}
+
+//------------ an RTR client inside the server child: counts Serial Notify PDUs --------------------------------
+//
+// Connects to the server's RTR port, sends a Reset Query until the server has data (before that it answers with an
+// error report), reads up to End of Data and from then on counts every Serial Notify.  The validation thread waits at
+// the point `server.updated` of the first run (data installed, notification not yet sent) until the client is
+// synchronised.  There are no TALs, so the data set never changes again: exactly ONE notification is due, the first run's.
+
+static SYNCED: std::sync::atomic::AtomicU64 = std::sync::atomic::AtomicU64::new(0);   // run counter when End of Data arrived (+1)
+static NOTIFS: std::sync::atomic::AtomicU64 = std::sync::atomic::AtomicU64::new(0);
+
+fn rtr_observer(port: u16) {
+    use std::io::{Read, Write};
+    use std::sync::atomic::Ordering::SeqCst;
+    loop {
+        std::thread::sleep(Duration::from_millis(20));
+        let mut sock = match std::net::TcpStream::connect(("127.0.0.1", port)) { Ok(s) => s, Err(_) => continue };
+        let _ = sock.set_read_timeout(Some(Duration::from_secs(30)));
+        if sock.write_all(&[1, 2, 0, 0, 0, 0, 0, 8]).is_err() { continue }       // Reset Query, protocol version 1
+        let mut synced = false;
+        loop {
+            let mut h = [0u8; 8];
+            if sock.read_exact(&mut h).is_err() { break }
+            let len = u32::from_be_bytes([h[4], h[5], h[6], h[7]]) as usize;
+            let mut body = vec![0u8; len.saturating_sub(8).min(1 << 20)];
+            if sock.read_exact(&mut body).is_err() { break }
+            match h[1] {
+                7 => {                                                                                                      // End of Data
+                    synced = true;
+                    SYNCED.store(routinator::verif::counter("validation.process.calls") + 1, SeqCst);
+                    routinator::verif::release("server.updated");
+                    routinator::verif::disarm("server.updated");
+                }
+                0 => { if synced { NOTIFS.fetch_add(1, SeqCst); } }                                                          // Serial Notify
+                10 => break,                                                                                                // Error Report (no data yet): try again
+                _ => { }
+            }
+        }
+        if synced { return }
+    }
+}
+
+fn gen_notify(_rng: &mut Rng, tier: &str) -> Vec<(String, Value)> {
+    // server histories with a success first (the client synchronises during the refresh wait after it), then failures
+    let mut v = Vec::new();
+    let seqs: Vec<Vec<u64>> = if tier == "thorough" {
+        vec![vec![0, 1, 2], vec![0, 1, 1], vec![0, 2], vec![0, 0, 1, 2], vec![0, 1, 0, 1, 2], vec![0, 0, 2], vec![0, 1, 0, 2]]
+    } else { vec![vec![0, 1, 2], vec![0, 2], vec![0, 1, 0, 2]] };
+    for s in seqs { v.push(("server.notify".to_string(), json!({"cmd": "server", "outcomes": s, "observe": true}))); }
+    v
 }
 
 fn gen(_rng: &mut Rng, tier: &str) -> Vec<(String, Value)> {
@@ -88,9 +156,15 @@ fn run(input: &Value) -> CaseOut {
     let cmd = input["cmd"].as_str().unwrap();
     let outcomes: Vec<u64> = input["outcomes"].as_array().unwrap().iter().map(|x| x.as_u64().unwrap()).collect();
     let dir = tempfile::tempdir().unwrap();
-    let mut ch = Command::new(std::env::current_exe().unwrap())
-        .args(["child", cmd, &outcomes.iter().map(|x| x.to_string()).collect::<Vec<_>>().join(","), dir.path().to_str().unwrap()])
-        .stdout(Stdio::piped()).stderr(Stdio::null()).spawn().expect("spawn child");
+    let observe = input["observe"].as_bool().unwrap_or(false);
+    let mut command = Command::new(std::env::current_exe().unwrap());
+    command.args(["child", cmd, &outcomes.iter().map(|x| x.to_string()).collect::<Vec<_>>().join(","), dir.path().to_str().unwrap()])
+        .stdout(Stdio::piped()).stderr(Stdio::null());
+    if observe {
+        let port = { let l = std::net::TcpListener::bind("127.0.0.1:0").unwrap(); l.local_addr().unwrap().port() };
+        command.env("C32_RTR_PORT", port.to_string());
+    }
+    let mut ch = command.spawn().expect("spawn child");
     let deadline = Instant::now() + Duration::from_secs(120);
     let ended = loop {
         match ch.try_wait().unwrap() {
@@ -102,7 +176,14 @@ fn run(input: &Value) -> CaseOut {
     if let Some(mut so) = ch.stdout.take() { let _ = so.read_to_string(&mut out); }
     let line = out.lines().find(|l| l.starts_with("RESULT ")).unwrap_or("RESULT runs=999999 exit=99").to_string();
     let runs: u64 = line.split("runs=").nth(1).and_then(|s| s.split(' ').next()).and_then(|s| s.parse().ok()).unwrap_or(999_999);
-    let exit: u64 = line.split("exit=").nth(1).and_then(|s| s.trim().parse().ok()).unwrap_or(99);
+    let exit: u64 = line.split("exit=").nth(1).and_then(|s| s.split(' ').next()).and_then(|s| s.trim().parse().ok()).unwrap_or(99);
+    if observe {
+        let synced: u64 = line.split("synced=").nth(1).and_then(|s| s.split(' ').next()).and_then(|s| s.parse().ok()).unwrap_or(0);
+        let notifs: u64 = line.split("notifs=").nth(1).and_then(|s| s.trim().parse().ok()).unwrap_or(999);
+        let coq = format!("{{| n_outcomes := [{}]; n_ended := {}; n_runs := {}; n_synced := {}; n_notifs := {} |}}",
+            outcomes.iter().map(|o| match o { 0 => "Ok", 1 => "Retry", _ => "Fatal" }).collect::<Vec<_>>().join("; "), coq_bool(ended), runs, synced, notifs);
+        return CaseOut { obs: json!({"ended": ended, "runs": runs, "synced_at_run": synced, "notifications_after_sync": notifs}), coq, nontrivial: synced > 0 }
+    }
     let code = match cmd.trim_end_matches('!') { "vrps" | "vrps_upd" => 0, "validate" => 1, "update" => 2, _ => 3 };
     let coq = format!("{{| c_cmd := {}; c_outcomes := [{}]; c_sanitize_ok := {}; i_ended := {}; i_runs := {}; i_exit_ok := {} |}}",
         code, outcomes.iter().map(|o| match o { 0 => "Ok", 1 => "Retry", _ => "Fatal" }).collect::<Vec<_>>().join("; "),
@@ -113,5 +194,6 @@ fn run(input: &Value) -> CaseOut {
 fn main() {
     let a: Vec<String> = std::env::args().collect();
     if a.get(1).map(|s| s.as_str()) == Some("child") { child(&a[2], &a[3], &a[4]); }
+    if std::env::var("C32_STREAM").as_deref() == Ok("notify") { drive_par(gen_notify, run, 4); return }
     drive_par(gen, run, 12)
 }
